@@ -173,14 +173,14 @@ pub fn run(cfg: &RunCfg) -> Report {
     );
     rep.assumptions = vec!["external inputs have distinct order ids and order.price == level price (DESIGN §8)".into()];
     let tier = cfg.tier;
-    let n = cfg.cases(40_000, 1_500_000);
+    let n = cfg.cases(200_000, 6_000_000);
     let known_excuse = (true, true);
     rep.absorb(
         "history",
         explore(cfg, "C10", n, move || c10_history(tier), move |h: &History, st| crate::checks::hist::eval(&C10H, h, st, known_excuse)),
     );
     if !rep.failed() {
-        let n2 = cfg.cases(100_000, 3_000_000);
+        let n2 = cfg.cases(500_000, 15_000_000);
         rep.absorb("external_input", explore(cfg, "C10-ext", n2, external, |e: &External, st| eval_external(e, st)));
     }
     rep
